@@ -94,6 +94,19 @@ def work(shard, rec):
                 entries.insert(pos, (f_, abg))
                 meta.insert(pos, (True, None, False))
             rec.count("alias_entries", 3)
+        if li % 5 == 2 and entries:
+            # a tuple / list colour and the informal string that prints the same characters, next to each other (both orders):
+            # different input formats (and, for fractions, different colours)
+            k0 = rnd.randrange(len(entries))
+            if rnd.random() < 0.5:
+                tt, bb = tuple(rnd.randrange(256) for _ in range(3)), rnd.choice([(255, 255, 255), (0, 0, 0), (238, 238, 238)])
+            else:
+                tt, bb = tuple(round(rnd.random(), 1) for _ in range(3)), (1.0, 1.0, 1.0)
+            pair_t, pair_s = (tt, bb), (str(tt), str(bb))
+            for e2 in ((pair_t, pair_s) if rnd.random() < 0.5 else (pair_s, pair_t)):
+                entries.insert(k0, e2)
+                meta.insert(k0, (True, None, False))
+            rec.count("str_alias_entries", 2)
         mode, vr = settings[(li + shard["idx"]) % 6]
         case = {"entries": [repr(e) for e in entries], "mode": mode, "vr": vr, "seed": shard["seed"], "idx": shard["idx"], "li": li}
         rec.ev()
